@@ -67,7 +67,12 @@ fn main() {
 	for case in read_cases(&args[2]) {
 		// a runtime per case: code under test that blocks a worker thread for good (a dead-locked handler) must not starve
 		// the following cases, and must not keep the process from exiting
-		let rt = tokio::runtime::Builder::new_multi_thread().worker_threads(4).enable_all().build().unwrap();
+		// (either flavour: an application may run Watchexec on a current-thread runtime)
+		let rt = if case["rt"] == "current" {
+			tokio::runtime::Builder::new_current_thread().enable_all().build().unwrap()
+		} else {
+			tokio::runtime::Builder::new_multi_thread().worker_threads(4).enable_all().build().unwrap()
+		};
 		let v = match args[1].as_str() {
 			"worker" => rt.block_on(run_worker(case.clone())),
 			"wx" => rt.block_on(run_wx(case.clone())),
